@@ -43,6 +43,16 @@ Theorem C04_no_worker_activity_after_stop : forall a w tr,
 Proof. exact no_worker_activity_after_stop. Qed.
 Print Assumptions C04_no_worker_activity_after_stop.
 
+(* the repaired wake-up: a stop that finds no thread after its sleep returns without touching
+   anything (two simultaneous stops themselves are outside this one-stop model; the check runs
+   them against the direct oracles) *)
+Theorem C04_wake_without_thread_returns : forall s s',
+  worker s = false -> step s AResetWake = Some s' ->
+  rpc s' = RDone /\ mtx s' = false /\ worker s' = false /\ queue s' = queue s /\ inflight s' = inflight s /\
+  pending s' = pending s /\ log s' = log s /\ accepted s' = accepted s /\ app s' = app s.
+Proof. exact wake_without_thread_returns. Qed.
+Print Assumptions C04_wake_without_thread_returns.
+
 (* 2. at all times and across any number of move/reset cycles the delivered list is a prefix of
       the accepted list: nothing twice, nothing reordered, nothing skipped *)
 Theorem C04_log_prefix : forall a w tr,
